@@ -210,3 +210,6 @@ func maskNumbers(s string) string {
 	}
 	return out
 }
+
+// Describe returns the human-readable description of the case so far.
+func (x *X) Describe() string { return x.description() }
